@@ -128,6 +128,33 @@ CHECKS["C19"] = dict(
          "Outside: pydantic-core type errors, arbitrary illegal strings beyond the candidates.",
     design="4/C19", technique=TECH_A)
 
+CHECKS["C08"] = dict(
+    text="Column geometry decided in exact real arithmetic on a trace of the real Utils._col_widths (every real width vector "
+         "for n<=6 quick / n<=12 thorough: increasing, proportional, last = table width), inch->twip bit-exactly in IEEE doubles, "
+         "and the row emitters - spanning row, header boundaries incl. inherited widths after column removal, footnote/source "
+         "rows, data rows, width/attribute slicing, components shared with an earlier document - symbolically over their "
+         "configuration space.",
+    note="Trusted: z3 (NRA, QF_FP; cvc5 for the monotonicity lemma in the thorough tier), the proxy tracer (validated each "
+         "run), CrossHair, vf.minipl. Table widths in the CrossHair obligations range over a k/8-inch grid because the value "
+         "passes through pydantic-core; O1/O2 cover all reals/doubles.",
+    design="4/C08", technique="shadow-valued tracing of the real float code into z3 real/FP terms; " + TECH_A)
+CHECKS["C11"] = dict(
+    text="The real regex pass executed symbolically per table entry (quick: seeded 40 plain + special + all 26 braced; "
+         "thorough: all 678 reachable entries) with a symbolic neighbouring character and solver-enumerated letter / "
+         "brace-group continuations against a reference written from the statement; special sequences decided in reader "
+         "terms on 3-character texts over the trigger alphabet; unknown commands, page keywords, per-component text_convert.",
+    note="Trusted: z3/CrossHair str+regex models, the symbol table as specification, the run decoder. One listed known "
+         "finding (visible space after >= / <=). Outside: the 4 entries the letter-run rule cannot name, raw backslashes with "
+         "conversion off.",
+    design="4/C11", technique=TECH_A)
+CHECKS["C20"] = dict(
+    text="Wrapper clauses only: with Pillow's measured length an arbitrary non-negative double, the px/in/mm results are exact "
+         "conversions of one another and non-negative (bit-exact, congruence on the shared px/dpi term); font by number and by "
+         "name reach Pillow with the same font file, size and text; unsupported font or unit raises ValueError.",
+    note="The glyph-metric clauses (empty string, monotonicity, scaling, monospace advance) are facts about FreeType (C) and are "
+         "NOT claimed. Trusted: z3 QF_FP, proxy tracer, recording stub for Pillow.",
+    design="4/C20", technique="shadow-valued tracing into z3 QF_FP; " + TECH_A)
+
 NOT_APPLICABLE = {
     "C18": "file-system crash-point property: effects of pathlib/tempfile/shutil and an external converter are opaque to "
            "(and blocked under) symbolic execution; a model of the file system would verify the model, not the effects",
